@@ -38,6 +38,15 @@ def retyped(B, L, R):
     return False
 
 
+def classify_triple(B, L, R):
+    """Classifier for fingerprints: 'upgrade|' when exactly one side moved a pre-4.5 notebook to 4.5 (ids added) while the other
+    side still works in the id-less format; 'retype|' when a side changes a cell's type in place; '' otherwise."""
+    mb, ml, mr = B['nbformat_minor'], L['nbformat_minor'], R['nbformat_minor']
+    if mb < 5 and (ml >= 5) != (mr >= 5):
+        return 'upgrade|'
+    return 'retype|' if retyped(B, L, R) else ''
+
+
 def check(ctx, B, L, R, cfg, ts, labels, out):
     ctx.count('evaluations')
     if labels[1] != labels[2]:
@@ -64,7 +73,7 @@ def check(ctx, B, L, R, cfg, ts, labels, out):
     if len(ids) != len(set(ids)):
         ctx.count('info:duplicate_cell_ids(not part of the schema; nbformat repairs them)')
     ctx.seen('declared_minor', str(doc.get('nbformat_minor')))
-    cls = 'retype|' if errs and retyped(B, L, R) else ''
+    cls = classify_triple(B, L, R) if errs else ''
     for path, kw, msg in errs:
         ctx.violation('%s|SCHEMA|%s%s|%s|%s' % (PROP, cls, path, kw, msg),
                       'merged notebook invalid for its declared minor %r: %s %s %s' % (doc.get('nbformat_minor'), path, kw, msg),
@@ -104,7 +113,7 @@ def check_file(ctx, B, L, R, tmp, labels):
         ctx.violation('%s|FILE|unreadable|%s' % (PROP, type(e).__name__), 'nbmerge --out did not leave readable JSON', case)
         return
     errs = validate_notebook(doc)
-    cls = 'retype|' if errs and retyped(B, L, R) else ''
+    cls = classify_triple(B, L, R) if errs else ''
     for path, kw, msg in errs:
         ctx.violation('%s|FILE-SCHEMA|%s%s|%s|%s' % (PROP, cls, path, kw, msg), 'file written by nbmerge --out is invalid: %s %s %s' % (path, kw, msg), case)
 
